@@ -286,7 +286,11 @@ func calleeName(c *ssa.CallCommon) string {
 		return b.Name()
 	}
 	if f := c.StaticCallee(); f != nil {
-		return f.Name()
+		n := f.Name()
+		if i := strings.Index(n, "["); i > 0 {
+			n = n[:i] // an instance of a generic function is addressed by the generic's name
+		}
+		return n
 	}
 	// dynamic: name of the field/variable holding the func
 	switch v := c.Value.(type) {
